@@ -70,8 +70,9 @@ func newCheckEnv(name string, fc *FuncContract) *checkEnv {
 	return ce
 }
 
-func (e *Engine) newExec(ce *checkEnv) *Exec {
-	x := &Exec{eng: e, ctx: NewCtx(), cur: ce, closures: map[*ssa.MakeClosure]bool{}, matSeq: map[string]*SeqV{}, ufApps: map[string][][]Term{}, iteDefs: map[string][3]Term{}}
+func (e *Engine) newExec(ce *checkEnv) (x *Exec) {
+	defer func() { shareCtx = x.ctx }()
+	x = &Exec{eng: e, ctx: NewCtx(), cur: ce, closures: map[*ssa.MakeClosure]bool{}, matSeq: map[string]*SeqV{}, ufApps: map[string][][]Term{}, iteDefs: map[string][3]Term{}}
 	return x
 }
 
